@@ -2,8 +2,8 @@
 
    Transcribed from /repo:
      client.go:626-635, server.go:180-189        start-time validation           -> start_ok
-     client_format.go:267-289, server_stream_format.go:101-121,
-     server_session_format.go:288-309            RTP write paths                 -> write_rtp
+     client_format.go:267-293, server_stream_format.go:101-125,
+     server_session_format.go:288-313            RTP write paths (after fix commits ff7d2a8, 5cb4d00) -> write_rtp
      client_media.go:449-473, server_stream_media.go:99-121,
      server_session_media.go:399-426, server_multicast_writer_media.go:87-114
                                                  RTCP write paths                -> write_rtcp
@@ -66,21 +66,34 @@ Inductive wres :=
   | WPanic               (* make([]byte, negative) *)
   | WSent (wire : Z).    (* the payload handed to the UDP socket / to the interleaved frame *)
 
-(* writePacketRTP *)
+(* writePacketRTP, as repaired by ff7d2a8 (the MKI is counted in the overhead) and 5cb4d00 (a negative
+   plain budget is an error, not a make() panic) *)
 Definition write_rtp (max : Z) (secure : bool) (mki : Z) (size : Z) : wres :=
-  let max_plain := if secure then max - srtp_overhead else max in
-  if max_plain <? 0 then WPanic else            (* plain := make([]byte, maxPlainPacketSize) *)
+  let max_plain := if secure then max - (srtp_overhead + mki) else max in
+  if max_plain <? 0 then WErr else              (* "MaxPacketSize is too small" *)
   if max_plain <? size then WErr else           (* pkt.MarshalTo(plain): io.ErrShortBuffer *)
-  if secure then WSent (srtp_len size mki)      (* encr := make([]byte, max); EncryptRTP grows it when needed *)
+  if secure then WSent (srtp_len size mki)      (* encr := make([]byte, max); EncryptRTP *)
   else WSent size.
 
-(* writePacketRTCP *)
+(* writePacketRTCP, as repaired by ff7d2a8 *)
 Definition write_rtcp (max : Z) (secure : bool) (mki : Z) (size : Z) : wres :=
-  let max_plain := if secure then max - srtcp_overhead else max in
+  let max_plain := if secure then max - (srtcp_overhead + mki) else max in
   if max_plain <? size then WErr else           (* "packet is too big" *)
   if secure then
-    (if max <? 0 then WPanic else WSent (srtcp_len size mki))
+    (if max <? 0 then WPanic else WSent (srtcp_len size mki))   (* encr := make([]byte, max) *)
   else WSent size.
+
+(* the write paths BEFORE ff7d2a8 / 5cb4d00 (regression witnesses only; not used by run) *)
+Definition write_rtp_old (max : Z) (secure : bool) (mki : Z) (size : Z) : wres :=
+  let max_plain := if secure then max - srtp_overhead else max in
+  if max_plain <? 0 then WPanic else
+  if max_plain <? size then WErr else
+  if secure then WSent (srtp_len size mki) else WSent size.
+
+Definition write_rtcp_old (max : Z) (secure : bool) (mki : Z) (size : Z) : wres :=
+  let max_plain := if secure then max - srtcp_overhead else max in
+  if max_plain <? size then WErr else
+  if secure then (if max <? 0 then WPanic else WSent (srtcp_len size mki)) else WSent size.
 
 (* InterleavedFrame.MarshalTo into tcpBuffer, then Write(buf[:n]):
    (declared payload length, bytes written to the connection) ; None = index out of range *)
